@@ -303,6 +303,64 @@ def implicit_forms(chk, facts):
     chk.floor(rule, "implicit-form arms", n, 4)
 
 
+def parse_types(chk, facts):
+    """Schema-directed parsing uses the expected type of the thing being parsed: an attribute value is parsed against
+    attr_type(its own key), a tag value against tag_type(), and the parsed components are handed to Entity::new under their own names."""
+    from lib import xlabels
+    rule = "C10.EXPECTED"
+    name = "cedar_policy_core::entities::json::entities::EntityJsonParser::<'_, '_, S>::parse_ejson"
+    f = get_fn(chk, facts, rule, name)
+    if f is None:
+        return
+    EJ = "cedar_policy_core::entities::json::entities::EntityJson"
+
+    def seed(p):
+        return ["F:" + e[2] for e in p[1:] if isinstance(e, list) and e[0] == "f" and e[3] == EJ and e[2]]
+
+    def cl(c, t):
+        last = c.split("::")[-1]
+        if last == "attr_type":
+            return ["T:attrs"]
+        if last == "tag_type":
+            return ["T:tags"]
+        return None
+    n = 0
+    pairs = []
+    for g, L in xlabels.bodies_with_labels(facts, f, seed, call_labels=cl):
+        for b, t in g.calls():
+            if callee(t).endswith("ValueParser::<'e>::val_into_restricted_expr") or callee(t).endswith("ValueParser::val_into_restricted_expr"):
+                val = {x[2:] for x in L.operand_labels(t[2][1]) if x.startswith("F:")}
+                ty = {x[2:] for x in L.operand_labels(t[2][2]) if x.startswith("T:")}
+                pairs.append((sorted(val), sorted(ty), t[1].get("l"), g))
+    for val, ty, line, g in pairs:
+        ok = len(val) == 1 and (not ty or ty == val)
+        n += 1
+        chk.ob(rule, "value:%s@L%s" % ("/".join(val), line), ok, "a value of the JSON `%s` map is parsed against the expected type from %s" % ("/".join(val), ["%s_type" % x.rstrip("s") for x in ty] or "no schema (None)"),
+               where=g.where(line), fn=g.name, key="%s:value:%s:%s" % (rule, "/".join(val), "/".join(ty)))
+    typed = {tuple(v) for v, ty, _, _ in pairs if ty}
+    chk.ob(rule, "both-typed", typed == {("attrs",), ("tags",)}, "both attribute values and tag values have a schema-directed parse: %s" % sorted(typed), where=f.where(), fn=f.name)
+    # Entity::new(uid, attrs, indirect_ancestors, parents, tags, ..)
+    ctor = facts.fn("cedar_policy_core::ast::entity::Entity::new")
+    if ctor is None:
+        chk.lost(rule, "ast::entity::Entity::new")
+    else:
+        pn = {}
+        for nm, p in ctor.r["dbg"]:
+            if len(p) == 1 and 1 <= p[0] <= ctor.nargs:
+                pn.setdefault(p[0], nm)
+        L = shape.Labels(f, None, seed)
+        for b, t in f.calls():
+            if callee(t) == "cedar_policy_core::ast::entity::Entity::new":
+                for i, o in enumerate(t[2]):
+                    nm = pn.get(i + 1)
+                    if nm in ("attrs", "parents", "tags", "uid"):
+                        labs = {x[2:] for x in L.operand_labels(o) if x.startswith("F:") and x[2:] in ("attrs", "parents", "tags", "uid")}
+                        n += 1
+                        chk.ob(rule, "Entity::new:%s" % nm, labs == {nm} or (nm != "uid" and labs == {nm, "uid"}),
+                               "Entity::new's `%s` is built from the JSON %s" % (nm, sorted(labs)), where=f.where(t[1].get("l")), fn=f.name, key="%s:Entity::new:%s" % (rule, nm))
+    chk.floor(rule, "schema-directed parse sites and constructor arguments", n, 9)
+
+
 def run(chk, facts, tier):
     facts.load_crate("cedar_policy_core.lib")
     chk.explanation = (
@@ -317,3 +375,4 @@ def run(chk, facts, tier):
     value_hom(chk, facts)
     entity_fields(chk, facts)
     implicit_forms(chk, facts)
+    parse_types(chk, facts)
